@@ -568,6 +568,21 @@ pub fn main(args: &util::Args) {
             let _ = std::fs::remove_dir_all(&dir);
         }
     }
+    if only == "file" {
+        // replay: one program given on the command line
+        if let Some(f) = args.rest.get(1) {
+            if let Ok(src) = std::fs::read_to_string(f) {
+                let dir = util::scratch_dir("c06f");
+                let path = dir.join("main.gom");
+                let _ = std::fs::write(&path, &src);
+                match typecheck(&path, &src) {
+                    Ok((tast, genv)) => emit_program(&mut out, "replay", &tast, &genv, Some(&src)),
+                    Err(e) => writeln!(out.text, "replay\tREJECT\t{}\t{}", crate::sexp::esc_line(&e), crate::sexp::esc_line(&src)).unwrap(),
+                }
+                let _ = std::fs::remove_dir_all(&dir);
+            }
+        }
+    }
     if only == "all" || only == "small" {
         gen_small(args, &mut out, &mut stats);
     }
